@@ -24,7 +24,11 @@
                                                                     rotate_to_min), matrix (ii)
      dcel_fixup.go:populateInSetLabels (vertices, halfEdges)   (ii) [populate_labels_order_free], including the read
                                                                     of e.prev.inSet that may still be unset
-     dcel_extract_geometry.go:extractPolygons (range facesInPoly)   (i) [order_rings_perm_invariant, rotate_to_min_invariant]
+     dcel_extract_geometry.go:extractPolygons (range facesInPoly)   (i) [order_rings_perm_invariant, rotate_to_min_invariant];
+                                                                    was (iii) for INVALID operands: orderPolygonRings took
+                                                                    the first counter-clockwise ring found, and invalid input
+                                                                    can yield several: EXHIBITED (finding F141, error text of
+                                                                    set operations varied; fixes/F141.patch takes the least)
      dcel_extract_geometry.go:findFacesMakingPolygon (pop from toExpand)  (ii) connected component as a set
      dcel_extract_geometry.go:extractLineStrings (range d.halfEdges)  (i) [orient_edge_twin_invariant + sort]
      dcel_extract_geometry.go:extractPoints (range d.vertices)        (i) sort by XY.Less
@@ -92,37 +96,58 @@ Section Order.
   Fixpoint rotn (k : nat) (l : list A) : list A :=
     match k with O => l | S k' => rotn k' (rot1 l) end.
 
-  (* geom/dcel_extract_geometry.go:orderPolygonRings
-       for i, r := range rings { if ccw(r) { rings[i], rings[0] = rings[0], rings[i]; break } }
-       inners := rings[1:]; sort.Slice(inners, less)
-     rings[1:] on an empty slice panics; extractPolygons returns an error before calling it with
-     no rings, so the empty case is modelled as None and never taken by [canon_poly]. *)
-  Variable ccw : A -> bool.
-  Fixpoint split_first (l : list A) : option (list A * A * list A) :=
+  (* the first member satisfying f, with what precedes and follows it; swapping it to the front
+     (rings[i], rings[0] = rings[0], rings[i]) *)
+  Fixpoint split_first (f : A -> bool) (l : list A) : option (list A * A * list A) :=
     match l with
     | [] => None
-    | x :: t => if ccw x then Some ([], x, t)
-                else match split_first t with
+    | x :: t => if f x then Some ([], x, t)
+                else match split_first f t with
                      | Some (pre, y, post) => Some (x :: pre, y, post)
                      | None => None
                      end
     end.
-  Definition swap_first_ccw (l : list A) : list A :=
-    match split_first l with
+  Definition swap_first_ccw (f : A -> bool) (l : list A) : list A :=
+    match split_first f l with
     | Some (a :: pre, x, post) => x :: pre ++ a :: post
     | _ => l
     end.
-  Definition order_rings (rings : list A) : option (list A) :=
-    match swap_first_ccw rings with
+
+  (* geom/dcel_extract_geometry.go:orderPolygonRings, as repaired by fix F141:
+       outer := -1
+       for i, r := range rings { if ccw(r) && (outer < 0 || r.less(rings[outer])) { outer = i } }
+       if outer < 0 { for i, r := range rings { if outer < 0 || r.less(rings[outer]) { outer = i } } }
+       rings[outer], rings[0] = rings[0], rings[outer]
+       inners := rings[1:]; sort.Slice(inners, less)
+     i.e. the LEAST counter-clockwise ring (the least ring when there is none) goes first - its
+     first occurrence; [ccw] is a function of the ring's coordinates, so equal rings agree on it.
+     Before the fix the FIRST counter-clockwise ring found was taken, which leaked the discovery
+     order whenever an (invalid) input made the overlay extract several (finding F141).
+     rings[outer] on an empty slice panics; extractPolygons returns an error before calling it with
+     no rings, so the empty case is modelled as None and never taken by [canon_poly]. *)
+  Variable ccw : A -> bool.
+  Definition least (l : list A) : option A :=
+    match l with
     | [] => None
-    | o :: inners => Some (o :: isort inners)
+    | x :: t => Some (fold_left (fun b y => if ltb y b then y else b) t x)
+    end.
+  Definition same (o x : A) : bool := negb (ltb x o) && negb (ltb o x).
+  Definition candidates (rings : list A) : list A :=
+    match filter ccw rings with [] => rings | _ :: _ => filter ccw rings end.
+  Definition order_rings (rings : list A) : option (list A) :=
+    match least (candidates rings) with
+    | None => None
+    | Some o => match swap_first_ccw (same o) rings with
+                | [] => None
+                | h :: inners => Some (h :: isort inners)
+                end
     end.
 End Order.
 
 Arguments insert {A}. Arguments isort {A}. Arguments sortedb {A}. Arguments min_index {A}.
 Arguments min_index_from {A}. Arguments rotate_right {A}. Arguments rotate_to_min {A}.
 Arguments rot1 {A}. Arguments rotn {A}. Arguments split_first {A}. Arguments swap_first_ccw {A}.
-Arguments order_rings {A}.
+Arguments order_rings {A}. Arguments least {A}. Arguments same {A}. Arguments candidates {A}.
 
 (* sorting records by a key: sort.Slice(polys, func(i,j){ return ext(polys[i]).less(ext(polys[j])) }) *)
 Definition isort_by {B K : Type} (ltb : K -> K -> bool) (key : B -> K) (l : list B) : list B :=
